@@ -214,14 +214,20 @@ type concCase struct {
 	reqs  func(ls []*logDef) []*creq
 }
 
-func scenarioConc(t *traceWriter, rng *rand.Rand)     { scenarioConcSel(t, rng, false) }
-func scenarioConcLogs(t *traceWriter, rng *rand.Rand) { scenarioConcSel(t, rng, true) }
+func scenarioConc(t *traceWriter, rng *rand.Rand)     { scenarioConcSel2(t, rng, false, false) }
+func scenarioConcLogs(t *traceWriter, rng *rand.Rand) { scenarioConcSel2(t, rng, true, false) }
 
 func init() { scenarios["conclogs"] = scenarioConcLogs }
 
+func init() { scenarios["concfree"] = scenarioConcFree }
+
+// scenarioConcFree: free-running rounds only (no scheduler): many goroutines hammer ONE shared Witness on the in-memory
+// and the SQLite store.  Meant to be run from the race-detector build; outcomes are judged as everywhere else.
+func scenarioConcFree(t *traceWriter, rng *rand.Rand) { scenarioConcSel2(t, rng, false, true) }
+
 // scenarioConcSel runs the controlled-schedule cases; with onlyMultiLog just the cases whose requests name more
 // than one log (C12: a log's outcomes do not depend on requests naming other logs, under every interleaving).
-func scenarioConcSel(t *traceWriter, rng *rand.Rand, onlyMultiLog bool) {
+func scenarioConcSel2(t *traceWriter, rng *rand.Rand, onlyMultiLog, onlyFree bool) {
 	key := genLogKey(rng, "conc-log")
 	tr := newExplicitBranch("trunk", 12, nil, 0)
 	f5 := newExplicitBranch("f5", 12, tr, 5) // shares the first 5 leaves with the trunk
@@ -387,7 +393,9 @@ func scenarioConcSel(t *traceWriter, rng *rand.Rand, onlyMultiLog bool) {
 			t.line("# conc case=%s store=%s schedules=%d preempt=%d random=%d", c.name, storeKind, count, fam, rnd)
 		}
 	}
-	if thorough() {
+	if onlyFree {
+		// nothing scheduled: straight to the free-running rounds
+	} else if thorough() {
 		runAll("mem", cases, maxSched, 1000)
 		runAll("sqlfile", cases, 300, 150)
 		runAll("mem", cases3, 10000, 2000)
@@ -399,6 +407,9 @@ func scenarioConcSel(t *traceWriter, rng *rand.Rand, onlyMultiLog bool) {
 	}
 	// free-running rounds (no scheduler): many goroutines, outcomes still have to be linearizable
 	rounds := pick(20, 1000)
+	if onlyFree {
+		rounds = pick(24, 300)
+	}
 	for r := 0; r < rounds; r++ {
 		execNo++
 		c := cases[rng.Intn(len(cases))]
@@ -565,10 +576,10 @@ func runConcExecFree(t *traceWriter, execNo int, storeKind, scratch string, c co
 	ctl := &lspCtl{fail: map[string]bool{}}
 	var clock int64
 	var wg sync.WaitGroup
-	for i, r := range reqs {
-		w := s.threadWitness(inner, ctl, i)
+	shared := s.threadWitnessF(inner, ctl, func() int { return 0 }) // one Witness for all goroutines, as in production
+	for _, r := range reqs {
 		wg.Add(1)
-		go func(r *creq, w *witness.Witness) { defer wg.Done(); runReq(w, r, &clock) }(r, w)
+		go func(r *creq, w *witness.Witness) { defer wg.Done(); runReq(w, r, &clock) }(r, shared)
 	}
 	ok := withDeadline(20*time.Second, wg.Wait)
 	writeLin(t, s, execNo, c, storeKind, init, reqs, []string{"free"}, !ok)
